@@ -151,6 +151,10 @@ def main():
         cort = rng.uniform(40, 120, size=Nm)
         Temp2 = float(rng.uniform(80, 350))
         en = 12000.0 + rng.uniform(-200, 200, size=Nm)
+        if s % 4 == 1:
+            # one far-detuned pigment: slow rates (below 1e-6 1/fs) whose
+            # ratios still obey detailed balance
+            en[-1] += 900.0
         dtb = 1.0
         Ntb = 3000
         Jcm = {(i, j): float(rng.uniform(-90, 90))
